@@ -53,8 +53,12 @@ def worker_dir(widx: int, seed: int = 0) -> str:
     return WORKER_DIRS[(widx + 3 * seed) % len(WORKER_DIRS)]
 
 
-def worker_env(root: str, tz: str = None, hashseed: int = 0) -> dict:
+LOG_MODES = ["off", "debug", "warning"]      # logging disabled / every record built and formatted / the library default
+
+
+def worker_env(root: str, tz: str = None, hashseed: int = 0, logmode: str = "off") -> dict:
     env = dict(os.environ)
+    env["AWVERIF_LOG"] = logmode or "off"
     if tz and os.path.exists(os.path.join("/usr/share/zoneinfo", tz)):
         env["TZ"] = tz
     for k in ("data", "config", "cache", "state", "home"):
@@ -103,7 +107,8 @@ def _spawn(pid, tier, seed, widx, nworkers, plan, root):
                 cases=plan["cases_per_worker"], time_s=plan["time_s"], out=out,
                 extra=plan.get("extra", {}))
     p = subprocess.Popen([PY, "-m", "awverif.worker", json.dumps(args)],
-                         env=worker_env(wroot, WORKER_ZONES[(widx + 5 * seed) % len(WORKER_ZONES)], hashseed=widx + 16 * seed),
+                         env=worker_env(wroot, WORKER_ZONES[(widx + 5 * seed) % len(WORKER_ZONES)], hashseed=widx + 16 * seed,
+                                        logmode=LOG_MODES[(widx + seed) % 3]),
                          cwd=wroot,
                          stdout=subprocess.DEVNULL, stderr=open(os.path.join(root, f"w{widx}.err"), "w"))
     return p, out
@@ -263,7 +268,7 @@ def finish(pid, tier, seed, mod, plan, results, dead, wall):
             path = os.path.join(REPLAY_DIR, f"{pid}-{tier}-s{seed}-{n}.json")
             with open(path, "w") as f:
                 json.dump(dict(property=pid, tier=tier, seed=seed, kind=v["kind"],
-                               detail=v["detail"], case=v["case"], tz=v.get("tz"), wdir=v.get("wdir"), hashseed=v.get("hashseed")), f, indent=1, default=str)
+                               detail=v["detail"], case=v["case"], tz=v.get("tz"), wdir=v.get("wdir"), hashseed=v.get("hashseed"), logmode=v.get("logmode")), f, indent=1, default=str)
             print(f"VIOLATION property={pid} replay={path}")
             print(f"  kind={v['kind']} detail={v['detail'][:400]}")
             if n >= 8:
@@ -290,7 +295,8 @@ def replay(pid: str, path: str) -> int:
                     seed=doc.get("seed", 0), widx=0, nworkers=1, cases=1, time_s=600, extra={})
         wroot = os.path.join(root, doc.get("wdir") or "w0")
         os.makedirs(wroot)
-        p = subprocess.run([PY, "-m", "awverif.worker", json.dumps(args)], env=worker_env(wroot, doc.get("tz"), hashseed=doc.get("hashseed") or 0),
+        p = subprocess.run([PY, "-m", "awverif.worker", json.dumps(args)], env=worker_env(wroot, doc.get("tz"), hashseed=doc.get("hashseed") or 0,
+                                                                                       logmode=doc.get("logmode") or "off"),
                            cwd=wroot, timeout=900)
         if not os.path.exists(out):
             print(f"INCONCLUSIVE property={pid} reason=replay worker exit={p.returncode}")
